@@ -110,6 +110,12 @@ class FunctionInfo:
                     node, inl = inlined_function(prog, self)
                 except RecursionError:  # pragma: no cover
                     node, inl = self.node, []
+            if prog is not None and any(isinstance(x, ast.For) and isinstance(x.iter, (ast.Tuple, ast.List)) for x in ast.walk(node)):
+                import copy as _copy
+
+                from .inline import unrolled
+
+                node = unrolled(_copy.deepcopy(node) if node is self.node else node)
             cached = (node, inl)
             self.__dict__["_anode"] = cached
         return cached[0]
